@@ -357,7 +357,7 @@ def _try_merge_simple(g, a, b):
         return a
     if isinstance(a, VClass) and a.py is b.py:
         return a
-    if isinstance(a, VSeq) and a.elem is b.elem:
+    if isinstance(a, VSeq) and (a.elem is b.elem or repr(a.elem) == repr(b.elem)):
         return VSeq(simp(z3.If(g, a.e, b.e)), a.elem, a.is_tuple)
     if isinstance(a, VTuple) and len(a.items) == len(b.items):
         items = []
